@@ -117,6 +117,31 @@ def search():
             return f"g({what}) over int -> int, str -> str selected specific overload types {revealed.get(ln)!r} although the Any member matches several overloads"
     if 9 not in diagnosed:
         return f"f(Union[int, str], int): the str member matches no overload but the call is accepted as {revealed.get(9)!r}"
+    # an `object` parameter matches an Any argument only by using Any: a later overload matches too, so no single type may be selected;
+    # a default that does not fit its annotation exempts only an omitted argument, not an explicitly passed equal literal
+    name = "verif_c08_lib_w"
+    _install_module(name, "from typing import overload, Any\n@overload\ndef f(a0: object) -> int: ...\n@overload\ndef f(a0: str) -> str: ...\ndef f(*args: Any) -> Any:\n    raise NotImplementedError\n"
+                          "@overload\ndef h(x: int, y: str = None) -> int: ...\n@overload\ndef h(x: int, y: None) -> str: ...\ndef h(*args: Any) -> Any:\n    raise NotImplementedError\n"
+                          "@overload\ndef k(x: int = ...) -> int: ...\n@overload\ndef k(x: str) -> str: ...\ndef k(*args: Any) -> Any:\n    raise NotImplementedError\n")
+    try:
+        code = (f"from {name} import f, h, k\nfrom typing import Any\n"
+                "def use(a: Any) -> None:\n"
+                "    reveal_type(f(a))\n    reveal_type(h(1, None))\n    reveal_type(h(1))\n    reveal_type(h(1, 's'))\n    reveal_type(k(...))\n    reveal_type(k())\n    reveal_type(f(1))\n")
+        res = check_code(code)
+    finally:
+        sys.modules.pop(name, None)
+    revealed = {fl["lineno"]: re.search(r"'(.*)'", fl["description"]).group(1) for fl in res if fl["code"].name == "reveal_type"}
+    diagnosed = {fl["lineno"] for fl in res if fl["code"].name in ("incompatible_call", "incompatible_argument")}
+    if revealed.get(4) in ("int", "str"):
+        return f"f(Any) over (object) -> int, (str) -> str selected the single type {revealed.get(4)!r} although both overloads match an Any argument"
+    if revealed.get(5) != "str" or 5 in diagnosed:
+        return f"h(1, None) over (x: int, y: str = None) -> int, (x: int, y: None) -> str: None is not a str, so the second overload is the first match; revealed {revealed.get(5)!r}, diagnosed={5 in diagnosed}"
+    if revealed.get(6) != "int" or revealed.get(7) != "int" or revealed.get(10) != "int":
+        return f"h(1) / h(1, 's') / f(1): revealed {revealed.get(6)!r} / {revealed.get(7)!r} / {revealed.get(10)!r}, expected int / int / int"
+    if 8 not in diagnosed and revealed.get(8) == "int":
+        return f"k(...) over (x: int = ...) -> int, (x: str) -> str: an explicitly passed Ellipsis is neither int nor str, but the call is accepted as {revealed.get(8)!r}"
+    if revealed.get(9) != "int":
+        return f"k() should take the first overload through its default: revealed {revealed.get(9)!r}"
     return None
 
 
